@@ -82,7 +82,7 @@ CLAIMS = {
    ref="6/C09"),
  "C10": dict(
    technique="runtime monitoring: differential oracle interpret(document) vs interpret(code only) on canonical symbol tables; per-namespace reference sessions compared with the sub-interpreters' symbol tables; static prose corpus swept by snippet x position and by ordered snippet pairs",
-   text="Every prose snippet of a static 45-element corpus at every position of a program, every ordered pair of adjacent snippets, and seeded interleavings of generated programs with prose must leave the final variables exactly as the code alone leaves them; statements distributed over named fences must populate one isolated namespace per name (split fences share it), leak nothing into the unnamed program, and a failing statement inside a named fence must not stop the rest of the document. The corpus includes comments and prose with assignment-like tails after a semicolon.",
+   text="Every prose snippet of a static 45-element corpus at every position of a program, every ordered pair of adjacent snippets, and seeded interleavings of generated programs with prose must leave the final variables exactly as the code alone leaves them; statements distributed over named fences must populate one isolated namespace per name (split fences share it), leak nothing into the unnamed program, and a failing statement inside a named fence must not stop the rest of the document. The corpus includes comments and prose with assignment-like tails after a semicolon. The prose corpus includes single-word call-outs of all six sigils and Markdown tables without an alignment row.",
    note="The prose corpus is static and hand written from the Mechdown documentation; code blocks and prose are separated by blank lines.",
    ref="6/C10"),
  "C20": dict(
@@ -92,17 +92,17 @@ CLAIMS = {
    ref="6/C20"),
  "C16": dict(
    technique="runtime monitoring: reference evaluator of arm lists (first arm in source order whose pattern matches and whose guard holds, with bindings) compared with interpreted calls over every permutation of arm families and every argument of a small domain; recurrences checked against closed forms; subprocess isolation for stack exhaustion",
-   text="Functions (one and two parameters) and match expressions built from literal, variable, wildcard, tuple, array and enum-payload patterns, with guards, are evaluated for every permutation of their arms on every argument of a small domain; arm bodies are tagged so that the selected arm and its binding are visible in the result. Factorial, fibonacci, power, gcd and a tail-recursive countdown (depth 2*10^4 quick, 2*10^5 thorough) are compared with the recurrence; scalar functions are applied to matrices; wrong arity, no matching arm and non-exhaustive matches must be errors. Also: the same variable name at different positions of different arms, tuple patterns of other arity, nested matches that use outer bindings (with a decoy global), tail recursion whose pattern variables are renamed or swapped, broadcasts of u64 / u8 / i64 / f32 functions over non-square matrices. Array patterns (head | tail, two-item prefix, first ... last, head spread, last spread) run over every numeric element kind, as function arms and match arms, with inline arguments and arguments held in variables.",
+   text="Functions (one and two parameters) and match expressions built from literal, variable, wildcard, tuple, array and enum-payload patterns, with guards, are evaluated for every permutation of their arms on every argument of a small domain; arm bodies are tagged so that the selected arm and its binding are visible in the result. Factorial, fibonacci, power, gcd and a tail-recursive countdown (depth 2*10^4 quick, 2*10^5 thorough) are compared with the recurrence; scalar functions are applied to matrices; wrong arity, no matching arm and non-exhaustive matches must be errors. Also: the same variable name at different positions of different arms, tuple patterns of other arity, nested matches that use outer bindings (with a decoy global), tail recursion whose pattern variables are renamed or swapped, broadcasts of u64 / u8 / i64 / f32 functions over non-square matrices. Array patterns (head | tail, two-item prefix, first ... last, head spread, last spread) run over every numeric element kind, as function arms and match arms, with inline arguments and arguments held in variables. Compound patterns nested in tuple patterns (tuple in tuple, three levels, an array pattern as one position) are matched in match and function arms.",
    note="Guards are only generated where the grammar has them (match expressions); a worker abort (stack overflow) is reported as a violation.",
    ref="6/C16"),
  "C17": dict(
    technique="runtime monitoring: offline trace checker over Interpreter::trace_events (start/step/arm/guard/transition/output events) against a reference simulation of generated transition systems; transition limit decided on the count of step events",
-   text="Generated machines (1-4 states, two payload fields, overlapping guards, fallbacks, loops) are run on inputs 0..7 with tracing on; every traced transition (arm index, next state, payload values) and the output must equal the reference simulation; ill-formed machines (wrong argument kind, undeclared target, declared but unimplemented state) must be rejected; non-terminating machines must stop with an error after exactly max_steps step events. Half of the multi-branch states are written as two arms for the same state (fall-through); array state patterns re-bind prefix / suffix variables across steps; machines are invoked from transitions and comprehensions with local names, and wrong-kind elements in a comprehension must be rejected. Array-pattern machines run over every numeric element kind, and a matrix of declared argument kinds x arguments (scalar kinds, unsized and sized matrix kinds; inline or held in a variable) demands acceptance exactly when the kinds agree.",
+   text="Generated machines (1-4 states, two payload fields, overlapping guards, fallbacks, loops) are run on inputs 0..7 with tracing on; every traced transition (arm index, next state, payload values) and the output must equal the reference simulation; ill-formed machines (wrong argument kind, undeclared target, declared but unimplemented state) must be rejected; non-terminating machines must stop with an error after exactly max_steps step events. Half of the multi-branch states are written as two arms for the same state (fall-through); array state patterns re-bind prefix / suffix variables across steps; machines are invoked from transitions and comprehensions with local names, and wrong-kind elements in a comprehension must be rejected. Array-pattern machines run over every numeric element kind, and a matrix of declared argument kinds x arguments (scalar kinds, unsized and sized matrix kinds; inline or held in a variable) demands acceptance exactly when the kinds agree. Array machines subscript pattern variables and state arguments next to globals of the same names; the invocation form rotates between a bare invocation, a definition read back and the declaration form #inst := #M(..).",
    note="Trace parsing relies on the rendered event messages (arm[i] ... -> :State(...) u64(@addr:value)); an unparsable transition event makes the case inconclusive, never a violation.",
    ref="6/C17"),
  "C18": dict(
    technique="runtime monitoring: relational-algebra reference joins over canonical rows compared (as multisets over the union of columns, with column kinds) with interpreted join expressions on generated tables; ordered comparison for row selection",
-   text="Pairs of generated tables (1-3 columns, 0-2 shared names, 1-5 rows, duplicate keys so that many-to-many matches occur, five column kinds) are joined with all six operators in symbol and word form; the result must be exactly the relational-algebra multiset of rows, columns that can be missing must be optional kinds and hold the empty value exactly in unmatched rows; selecting rows by index, repeated index vector and mask must return exactly those rows in order. Selections are also chained on temporary tables (vector then vector, mask then vector) and one mask in six selects no row. Unparenthesised chains of two table operators (all six) must group from the left; index literals of every unsigned kind and indices held in variables select the same rows.",
+   text="Pairs of generated tables (1-3 columns, 0-2 shared names, 1-5 rows, duplicate keys so that many-to-many matches occur, five column kinds) are joined with all six operators in symbol and word form; the result must be exactly the relational-algebra multiset of rows, columns that can be missing must be optional kinds and hold the empty value exactly in unmatched rows; selecting rows by index, repeated index vector and mask must return exactly those rows in order. Selections are also chained on temporary tables (vector then vector, mask then vector) and one mask in six selects no row. Unparenthesised chains of two table operators (all six) must group from the left; index literals of every unsigned kind and indices held in variables select the same rows. Chained selections end in index vectors and in logical masks; table columns take every integer and float kind.",
    note="An empty result may be a 0-row table or an error; single-row tables are not selected through a one-element mask (that literal is a scalar).",
    ref="6/C18"),
 }
